@@ -174,11 +174,12 @@ def _marker_paths(value, path=()):
                   'frame', 'never_raises', 'recursion.precondition', 'recursion.descends_once_per_key'],
          canaries=['canary.body_unchanged', 'canary.never_descends', 'canary.always_descends'],
          trusted=['dicts.resolve / ensure / remove by contract (X5d / X6d / X7d)'],
-         assumes=['A5r: body is an ARBITRARY JSON object (vc.json: any depth); path: 0..2 arbitrary names whose proper prefixes are '
-                  'mappings or missing in the body (true at the entry call as_json_patch makes with path (), re-established at '
-                  'every recursive call: clause recursion.precondition); value: None | 0 / False / "" / [] / [None] | an arbitrary '
-                  'JSON leaf (string, number, boolean, list) | a mapping of 0..2 keys (names ka, kb) whose values are None, 0, an '
-                  'arbitrary leaf, {} or a nested mapping with None markers at two depths',
+         assumes=['A5r: body is an ARBITRARY JSON object (vc.json: any depth). DOMAIN (cut to the 30 s budget; the rest: A5rm, bounded A5): '
+                  'at the ROOT path () (the entry call of as_json_patch): value = {} | a one-key mapping {ka: None / 0 / arbitrary leaf / {} / '
+                  'a mapping with None markers at two depths} | a two-key mapping {ka: None / 0 / {}, kb: None / arbitrary leaf}; at a path of '
+                  'ONE arbitrary name: value = None | 0 / False / "" / [] / [None] | an arbitrary JSON leaf (string, number, boolean, list) | {}. '
+                  'Paths of length >= 2 (where dicts.remove drops emptied parents) are NOT covered deductively (the proof did not fit the '
+                  'time budget: > 150 s); proper prefixes of the path are mappings or missing (clause recursion.precondition re-establishes it)',
                   'A5r: MODULAR treatment of the recursion: the call self._apply_patch(body, path + (key,), val) is replaced by a stub '
                   'that applies the CONTRACT to the sub-tree (the RFC 7386 merge of val at path + (key,), in one of two representatives '
                   'of "up to empty mappings": all kept, or all dropped along the patched paths); termination by structural descent: '
@@ -306,3 +307,299 @@ def A5rm(vc):
     """The second half of A5r (split for the time budget): a one-key mapping merged BELOW a path -- where an absent or
     non-mapping target is first replaced by an empty mapping and the seeded C18-1 / C18-2 grafted the branch with its markers."""
     return _a5r(vc, 'nested')
+
+
+# =========================================================================== A5j: Patch.as_json_patch
+def _same(a, b):
+    """Type-exact deep equality (1 is not True, 0 is not False, 2 is not 2.0); symbolic leaves by identity."""
+    if isinstance(a, SV) or isinstance(b, SV):
+        return a is b
+    if type(a) is not type(b):
+        return False
+    if isinstance(a, dict):
+        return list(a) == list(b) and all(_same(a[k], b[k]) for k in a)
+    if isinstance(a, list):
+        return len(a) == len(b) and all(_same(x, y) for x, y in zip(a, b))
+    return a == b
+
+
+def _clone(x, memo=None):
+    """copy.deepcopy by contract (trusted): new containers at every level, immutable leaves (and proxies) as they are."""
+    if isinstance(x, dict):
+        return {k: _clone(v) for k, v in x.items()}
+    if isinstance(x, list):
+        return [_clone(v) for v in x]
+    return x
+
+
+def _containers(x, out=None):
+    out = [] if out is None else out
+    if isinstance(x, (dict, list)):
+        out.append(id(x))
+        for v in (x.values() if isinstance(x, dict) else x):
+            _containers(v, out)
+    return out
+
+
+@harness('A5j', targets=[f'{PATCHES}.Patch.as_json_patch'], props=P_A5,
+         clauses=['empty_patch_no_ops', 'reference_body_required', 'reference_is_argument_else_original',
+                  'diff_of_as_is_vs_merged_then_fns_in_order', 'ops_are_the_library_diff', 'reference_not_mutated'],
+         canaries=['canary.never_raises', 'canary.always_empty'],
+         trusted=['jsonpatch.JsonPatch.from_diff(src, dst).patch: the RFC 6902 operations turning src into dst (third party, F-C18-3; '
+                  'bounded A5)', 'copy.deepcopy: an equal document sharing no container with its argument',
+                  'Patch.__bool__ / fns / __init__ run as real code (contracts V15 / V16)'],
+         assumes=['A5j: patch shapes {empty, keys only, fns only, both}; the reference body: the argument (None / {} / a raw dict / a '
+                  'Body view) and/or the original body of the constructor (None / a Body); bodies are concrete-structured with a symbolic '
+                  'leaf, the int 1 and nested mappings; fns: 0..2 transformations that do not commute, one of which turns 1 into True '
+                  'and changes a nested mapping; Patch._apply_patch by contract A5r (reference merge, empty mappings kept or dropped)'])
+def A5j(vc):
+    """
+    Patch.as_json_patch([body]) (C18: the requested mutations are faithfully reflected in the JSON patch of the response):
+      empty_patch_no_ops       a patch with neither keys nor fns gives [] (with or without a reference body);
+      reference_body_required  otherwise, without any reference body: ValueError;
+      reference_is_argument_else_original  the reference is the argument when one is given (also an EMPTY one), else the original
+                               body passed to the constructor;
+      diff_of_as_is_vs_merged_then_fns_in_order  the library diff is asked exactly once, for (the reference body as it is) ->
+                               (a copy of it, merge-patched with all keys of the patch [_apply_patch at the root, by contract
+                               A5r], then transformed by every fn once, IN ORDER, after the merge);
+      ops_are_the_library_diff  what is returned is the library's operation list for that pair -- always: no shortcut on a Python
+                               `==` of the two documents (1 == True, yet they differ in JSON);
+      reference_not_mutated    neither the argument nor the original body is changed at any depth (the work is done on a deep copy).
+    """
+    from kopf._cogs.structs import bodies, patches
+    leaf = _draw_leaf(vc, 'leaf')
+
+    def make_body():
+        return {'metadata': {'labels': {'a': 'x'}, 'finalizers': ['f']}, 'spec': {'n': 1, 'leaf': leaf}, 'flag': 1}
+    trace = []
+
+    def fn_a(b):
+        trace.append(('fn', 'a', id(b)))
+        b['flag'] = True if b.get('flag') == 1 and b.get('flag') is not True else 'twice'
+        b.setdefault('metadata', {}).setdefault('labels', {})['by-a'] = 'yes'
+
+    def fn_b(b):
+        trace.append(('fn', 'b', id(b)))
+        b['flag'] = 'b-after-' + repr(b.get('flag'))
+    fns_alts = [[], [fn_a], [fn_a, fn_b], [fn_b, fn_a]]
+    fns = fns_alts[vc.nondet(len(fns_alts), 'fns: none | a | a,b | b,a')]
+    keys_alts = [{}, {'spec': {'n': None, 'm': 2}, 'status': {'s': None}}, {'flag': None}]
+    keys = keys_alts[vc.nondet(len(keys_alts), 'keys: none | spec+status | flag=None')]
+    arg_kind = vc.nondet(4, 'argument: None | {} | raw dict | Body')
+    arg_raw = [None, {}, make_body(), make_body()][arg_kind]
+    arg = bodies.Body(arg_raw) if arg_kind == 3 else arg_raw
+    orig_kind = vc.nondet(2, 'original: None | Body')
+    orig_raw = make_body() if orig_kind else None
+    if orig_raw is not None:
+        orig_raw['spec']['n'] = 7          # tell the two references apart
+    original = bodies.Body(orig_raw) if orig_raw is not None else None
+    snap_arg, snap_orig = _clone(arg_raw), _clone(orig_raw)
+
+    merges = []
+
+    class P(patches.Patch):
+        def _apply_patch(self, body, path, value):      # by contract A5r
+            trace.append(('merge', id(body)))
+            merges.append((tuple(path), _clone(value)))
+            py_merge_at(body, tuple(path), value)
+            if vc.nondet(2, 'merge result: empty mappings kept | dropped'):
+                py_norm(body, tuple(path), value)
+    vc.used('patches.Patch._apply_patch', 'A5r')
+    patch = P(_clone(keys), body=original, fns=fns)
+    ops_token = [Opaque('op')]
+    diffs_asked = []
+
+    def from_diff(src, dst, *a, **kw):
+        trace.append(('diff', id(dst)))
+        diffs_asked.append((_clone(src), _clone(dst), _containers(src), _containers(dst)))
+        return types.SimpleNamespace(patch=ops_token)
+    ld = vc.load(PATCHES, 'Patch.as_json_patch',
+                 stubs={'copy.deepcopy': _clone, 'jsonpatch.JsonPatch': types.SimpleNamespace(from_diff=from_diff)})
+    outcome, ops = outcome_of(ld.fn, patch, arg) if vc.nondet(2, 'argument passed | omitted') == 0 or arg is not None \
+        else outcome_of(ld.fn, patch)
+    empty = not keys and not fns
+    ref_raw, ref_snap = (arg_raw, snap_arg) if arg is not None else (orig_raw, snap_orig)
+    vc.canary('canary.never_raises', outcome == 'return')
+    vc.canary('canary.always_empty', outcome == 'return' and ops == [])
+    vc.ensure('reference_not_mutated', _same(arg_raw, snap_arg) and _same(orig_raw, snap_orig))
+    if empty:
+        vc.ensure('empty_patch_no_ops', outcome == 'return' and ops == [] and not diffs_asked)
+        return ('A5j', 'empty', outcome)
+    if ref_raw is None:
+        vc.ensure('reference_body_required', outcome == 'ValueError' and not diffs_asked)
+        return ('A5j', 'no reference', outcome)
+    expected = _clone(ref_snap)
+    py_merge_at(expected, (), keys)
+    for fn in fns:
+        fn(expected)
+    del trace[-len(fns) or len(trace):]
+    asked = diffs_asked[0] if len(diffs_asked) == 1 else None
+    vc.ensure('reference_is_argument_else_original', outcome == 'return' and asked is not None and _same(asked[0], ref_snap))
+    pruned = _clone(expected)
+    py_norm(pruned, (), keys)
+    vc.ensure('diff_of_as_is_vs_merged_then_fns_in_order',
+              asked is not None and (_same(asked[1], expected) or _same(asked[1], pruned)))
+    work = [e for e in trace if e[0] != 'diff']
+    vc.ensure('diff_of_as_is_vs_merged_then_fns_in_order',
+              asked is not None and [e[:-1] for e in trace] == [('merge',)] + [('fn', f.__name__[-1]) for f in fns] + [('diff',)]
+              and len({e[-1] for e in work}) == 1 and len(merges) == 1 and merges[0][0] == () and _same(merges[0][1], keys))
+    vc.ensure('reference_not_mutated', asked is not None and not (set(asked[3]) & set(_containers(arg_raw) + _containers(orig_raw))))
+    vc.ensure('ops_are_the_library_diff', outcome == 'return' and ops is ops_token)
+    return ('A5j', len(keys), len(fns), outcome)
+
+
+# =========================================================================== E3w: diffs.diff / diffs.reduce
+@harness('E3w', targets=[f'{DIFFS}.diff', f'{DIFFS}.reduce'], props=P_E3,
+         clauses=['diff.arguments_passed_on', 'diff.exactly_the_yielded_items_in_order', 'reduce.arguments_passed_on',
+                  'reduce.exactly_the_yielded_items_in_order', 'reduce.empty_path_is_the_diff_itself', 'result_is_a_diff_of_diffitems'],
+         canaries=['canary.always_empty', 'canary.never_empty'],
+         trusted=['Diff.__init__ / __eq__ / __iter__ / __len__ and DiffItem (NamedTuple) run as real code'],
+         assumes=['E3w: diff_iter / reduce_iter by contract E3d, seen from the wrapper: a ONE-SHOT iterator of 0..3 items (DiffItems or '
+                  'plain 4-tuples) over opaque values; for reduce_iter with an empty path: the items of the diff as they are'])
+def E3w(vc):
+    """
+    diffs.diff(a, b, path, scope=) and diffs.reduce(d, path) are thin wrappers (C04: diffs are exact):
+      *.arguments_passed_on      the iterator is asked once, for exactly the given a / b / path / scope (default: the root, FULL)
+                                 resp. the given diff and path;
+      *.exactly_the_yielded_items_in_order  the result holds exactly the items the iterator yields, in that order;
+      result_is_a_diff_of_diffitems  it is a Diff whose items are DiffItems (also when the iterator yields plain tuples);
+      reduce.empty_path_is_the_diff_itself  reduce(d, ()) == d.
+    """
+    from kopf._cogs.structs import diffs
+    which = vc.nondet(2, 'diff | reduce')
+    n = vc.nondet(4, '#items')
+    ops = [diffs.DiffOperation.ADD, diffs.DiffOperation.CHANGE, diffs.DiffOperation.REMOVE]
+    raw = [(ops[i % 3], (f'f{i}',), Opaque(f'old{i}'), None if i == 1 else Opaque(f'new{i}')) for i in range(n)]
+    as_tuples = vc.nondet(2, 'yields DiffItems | plain tuples')
+    asked = []
+
+    def iterator(*a, **kw):
+        asked.append((a, kw))
+        for item in raw:
+            yield item if as_tuples else diffs.DiffItem(*item)
+    a, b = Opaque('a'), Opaque('b')
+    if which == 0:
+        ld = vc.load(DIFFS, 'diff', stubs={'diff_iter': iterator})
+        vc.used('diffs.diff_iter', 'E3d')
+        how = vc.nondet(3, 'defaults | path and scope | scope only')
+        path = ('spec', 'x') if how == 1 else ()
+        scope = resolve(vc.fin('scope', [diffs.DiffScope.LEFT, diffs.DiffScope.RIGHT, diffs.DiffScope.FULL])) if how else diffs.DiffScope.FULL
+        got = ld.fn(a, b) if how == 0 else ld.fn(a, b, path, scope=scope) if how == 1 else ld.fn(a, b, scope=scope)
+        ok = len(asked) == 1
+        if ok:
+            (pa, kw), names = asked[0], ('a', 'b', 'path')
+            args = dict(zip(names, pa), **kw)
+            ok = (set(args) <= {'a', 'b', 'path', 'scope'} and args.get('a') is a and args.get('b') is b
+                  and args.get('path', ()) == path and args.get('scope', diffs.DiffScope.FULL) is scope)
+        vc.ensure('diff.arguments_passed_on', ok)
+        name = 'diff'
+    else:
+        src_items = [diffs.DiffItem(*r) for r in raw]
+        d = diffs.Diff(src_items)
+        path = [(), ('spec',), ('f0', 'deeper')][vc.nondet(3, 'path: () | (spec,) | (f0, deeper)')]
+        if path:        # by contract E3d: some other items (here: a sub-sequence with shortened fields) -- only their passing-on matters
+            raw = [(o, f[1:], old, new) for o, f, old, new in raw[:2]]
+        ld = vc.load(DIFFS, 'reduce', stubs={'reduce_iter': iterator})
+        vc.used('diffs.reduce_iter', 'E3d')
+        got = ld.fn(d, path)
+        ok = len(asked) == 1 and not asked[0][1] and len(asked[0][0]) == 2 and asked[0][0][0] is d and asked[0][0][1] == path
+        vc.ensure('reduce.arguments_passed_on', ok)
+        if not path:
+            vc.ensure('reduce.empty_path_is_the_diff_itself', got == d and tuple(got) == tuple(src_items))
+        name = 'reduce'
+    items = list(got)
+    vc.ensure('result_is_a_diff_of_diffitems', isinstance(got, diffs.Diff) and all(type(i) is diffs.DiffItem for i in items))
+    vc.ensure(f'{name}.exactly_the_yielded_items_in_order',
+              len(items) == len(raw) and all(i.operation is r[0] and i.field == r[1] and i.old is r[2] and i.new is r[3]
+                                             for i, r in zip(items, raw)) and len(got) == len(raw))
+    vc.canary('canary.always_empty', len(items) == 0)
+    vc.canary('canary.never_empty', len(items) > 0)
+    return ('E3w', name, len(items))
+
+
+# =========================================================================== E3a: ResourceHandler.adjust_cause
+@harness('E3a', targets=['kopf._core.intents.handlers.ResourceHandler.adjust_cause', 'kopf._core.actions.execution.Handler.adjust_cause'],
+         props=P_E3,
+         clauses=['no_field_same_cause', 'other_causes_same_cause', 'old_new_diff_reduced_to_the_field', 'everything_else_unchanged',
+                  'given_cause_not_modified', 'base_handler_same_cause'],
+         canaries=['canary.always_same_cause', 'canary.never_same_cause'],
+         trusted=['dataclasses.replace on the frozen cause dataclass (CPython)'],
+         assumes=['E3a: the handler is a ChangingHandler / WatchingHandler with field None or a non-empty path of 1..2 names (kopf.on '
+                  'stores `parse_field(field) or None`); the cause is a ChangingCause (old / new: None, {} or a mapping; diff: empty or '
+                  'not; initial False/True) or a WatchingCause; dicts.resolve by contract X5d and diffs.reduce by contract E3w/E3d '
+                  '(opaque results, the calls recorded)'])
+def E3a(vc):
+    """
+    ResourceHandler.adjust_cause(cause) (docs/handlers: a field handler gets old / new / diff of ITS field; C04, C15):
+      no_field_same_cause        a handler without a field gets the very cause;
+      other_causes_same_cause    a cause that is not a change (watching) is handed on as it is;
+      old_new_diff_reduced_to_the_field  otherwise old = resolve(cause.old, field, None), new = resolve(cause.new, field, None),
+                                 diff = reduce(cause.diff, field) -- each from its OWN source, with the handler's field;
+      everything_else_unchanged  every other field of the cause (body, patch, memo, reason, initial, logger, ...) is the same object,
+                                 the class is the same;
+      given_cause_not_modified   the cause passed in keeps its own old / new / diff;
+      base_handler_same_cause    execution.Handler.adjust_cause (activities, plain handlers) returns the cause itself.
+    """
+    from kopf._core.actions import execution
+    from kopf._core.intents import causes, handlers
+    from kopf._cogs.structs import diffs
+    field = [None, ('spec',), ('spec', 'f')][vc.nondet(3, 'field: None | (spec,) | (spec, f)')]
+    common = dict(id='h', fn=Opaque('fn'), param=None, errors=None, timeout=None, retries=None, backoff=None, selector=None,
+                  labels=None, annotations=None, when=None, field=field, value=None)
+    basics = dict(logger=NullLogger(), indices=Opaque('indices'), memo=Opaque('memo'), resource=Opaque('resource'),
+                  patch=Opaque('patch'), body=Opaque('body'))
+    cause_kind = vc.nondet(2, 'cause: changing | watching')
+    if cause_kind == 0:
+        old = [None, {}, {'spec': {'f': 0}}][vc.nondet(3, 'old: None | {} | mapping')]
+        new = [None, {}, {'spec': {'f': False}}][vc.nondet(3, 'new: None | {} | mapping')]
+        diff = [diffs.EMPTY, diffs.Diff([(diffs.DiffOperation.CHANGE, ('spec', 'f'), 0, False)])][vc.nondet(2, 'diff: empty | one item')]
+        cause = causes.ChangingCause(**basics, initial=vc.fin('initial', [False, True]),
+                                     reason=vc.fin('reason', [causes.Reason.UPDATE, causes.Reason.CREATE]), diff=diff, old=old, new=new)
+    else:
+        cause = causes.WatchingCause(**basics, type=None, event=Opaque('event'))
+    calls = []
+
+    def resolve_(d, f, default=Ellipsis):
+        token = Opaque(f'resolved#{len(calls)}')
+        calls.append(('resolve', d, f, default, token))
+        return token
+
+    def reduce_(d, f):
+        token = Opaque(f'reduced#{len(calls)}')
+        calls.append(('reduce', d, f, None, token))
+        return token
+    vc.used('dicts.resolve', 'X5d'); vc.used('diffs.reduce', 'E3w')
+    if vc.nondet(2, 'ResourceHandler | base Handler') == 1:
+        h = execution.Handler(**{k: v for k, v in common.items() if k in ('id', 'fn', 'param', 'errors', 'timeout', 'retries', 'backoff')})
+        ld = vc.load('kopf._core.actions.execution', 'Handler.adjust_cause')
+        got = ld.fn(h, cause)
+        vc.ensure('base_handler_same_cause', got is cause)
+        return ('E3a', 'base')
+    extra = dict(reason=None, initial=None, deleted=None, requires_finalizer=None, field_needs_change=None, old=None, new=None)
+    h = handlers.ChangingHandler(**common, **extra) if cause_kind == 0 else handlers.WatchingHandler(**common)
+    before = {f.name: getattr(cause, f.name) for f in dataclasses.fields(cause)}
+    ld = vc.load('kopf._core.intents.handlers', 'ResourceHandler.adjust_cause', stubs={'dicts.resolve': resolve_, 'diffs.reduce': reduce_})
+    got = ld.fn(h, cause)
+    vc.canary('canary.always_same_cause', got is cause)
+    vc.canary('canary.never_same_cause', got is not cause)
+    vc.ensure('given_cause_not_modified', all(getattr(cause, k) is v for k, v in before.items()))
+    if field is None:
+        vc.ensure('no_field_same_cause', got is cause and not calls)
+        return ('E3a', 'no field', cause_kind)
+    if cause_kind == 1:
+        vc.ensure('other_causes_same_cause', got is cause)
+        return ('E3a', 'watching')
+
+    def result_of(kind, source):
+        hits = [c for c in calls if c[0] == kind and c[1] is source and tuple(c[2]) == field and (kind == 'reduce' or c[3] is None)]
+        return hits[-1][4] if hits else Ellipsis
+    # old and new may be the SAME object (None / None): then either call's result serves either side
+    def among(kind, source, value):
+        return any(c[0] == kind and c[1] is source and tuple(c[2]) == field and (kind == 'reduce' or c[3] is None) and c[4] is value
+                   for c in calls)
+    vc.ensure('old_new_diff_reduced_to_the_field',
+              among('resolve', before['old'], got.old) and among('resolve', before['new'], got.new)
+              and among('reduce', before['diff'], got.diff) and (got.old is not got.new))
+    vc.ensure('everything_else_unchanged', type(got) is type(cause) and all(
+        getattr(got, k) is v for k, v in before.items() if k not in ('old', 'new', 'diff')))
+    return ('E3a', 'reduced', len(calls))
